@@ -294,8 +294,10 @@ func (p *Policy) sanitize(r io.Reader, w io.Writer) error {
 
 			if len(token.Attr) == 0 {
 				if !p.allowNoAttrs(token.Data) {
-					skipClosingTag = true
-					closingTagToSkipStack = append(closingTagToSkipStack, token.Data)
+					if !voidElement(token.Data) {
+						skipClosingTag = true
+						closingTagToSkipStack = append(closingTagToSkipStack, token.Data)
+					}
 					if p.addSpaces {
 						if _, err := buff.WriteString(" "); err != nil {
 							return err
